@@ -78,7 +78,7 @@ func (t *LexerTermCard) NFACons(ctx *Context) *mode.NFAComposite {
 			B: nfaFactory.NewState(),
 			E: nfaFactory.NewState(),
 		}
-		nfaCons.E.NonGreedy = t.Card == ZeroOrMoreNG
+		nfaCons.E.NonGreedy = t.Card == OneOrMoreNG
 		nfaCons.B.AddTransition(termCons.B, nfa.Epsilon)
 		termCons.E.AddTransition(termCons.B, nfa.Epsilon)
 		termCons.E.AddTransition(nfaCons.E, nfa.Epsilon)
